@@ -175,6 +175,9 @@ def builtin(ex, name, pos, kw, st: State) -> SV:
         o, a = pos
         lit = ex.const_str(a)
         cls = o.cls if o.kind == 'ref' else None
+        if lit is not None and cls is not None and (cls, lit) in ex.reg.schema.presence:
+            # dynamically added attribute of a library object: presence is a ghost boolean field
+            return sv_bool(st.h.f(ex.reg.schema.presence[(cls, lit)], o.t))
         if lit is not None and cls is not None and cls in ex.reg.schema.classes:
             # declared attribute of a schema class (PJS: declared properties are always present)
             return sv_bool(lit in ex.reg.schema.classes[cls])
@@ -239,8 +242,11 @@ def container_method(ex, recv: SV, name: str, pos, kw, st: State) -> SV:
     if recv.kind == 'ref' and recv.cls == 'list':
         l = recv.t
         if name == 'append':
-            ex.list_append(l, pos[0], st)
-            _learn_elem(ex, recv, pos[0], st)
+            v = pos[0]
+            if v.kind == 'tuple':
+                v = ex.box_tuple(v, recv.ty.elem if recv.ty else None, st)
+            ex.list_append(l, v, st)
+            _learn_elem(ex, recv, v, st)
             return SV_NONE
         if name == 'extend':
             m = pos[0]
@@ -285,7 +291,8 @@ def container_method(ex, recv: SV, name: str, pos, kw, st: State) -> SV:
             cur = ex.dict_get(recv, k, st, default=dv, strict=False)
             sa = st.fork(); sa.assume(z3.Not(had))
             n = len(st.pc)
-            ex.dict_set(d, k, dv, sa)
+            et = recv.ty.elem if recv.ty is not None else None
+            ex.dict_set(d, k, dv, sa, own=(et is not None and et.kind in ('list', 'dict', 'set')))
             sb = st.fork(); sb.assume(had)
             m = merge_states(n, z3.Not(had), sa, sb)
             st.h, st.pc = m.h, m.pc
@@ -310,6 +317,15 @@ def container_method(ex, recv: SV, name: str, pos, kw, st: State) -> SV:
             had = h.has(recv.t, k)
             st.set_arr('D_has', z3.Store(h.arr['D_has'], recv.t, z3.Store(z3.Select(h.arr['D_has'], recv.t), k, z3.BoolVal(True))))
             st.set_arr('D_size', z3.Store(h.arr['D_size'], recv.t, z3.If(had, h.size(recv.t), h.size(recv.t) + 1)))
+            return SV_NONE
+        if name in ('discard', 'remove'):
+            k = to_val(pos[0])
+            h = st.h
+            had = h.has(recv.t, k)
+            if name == 'remove':
+                ex.side_raise(st, 'KeyError', z3.Not(had), 'set.remove(x): x not in set')
+            st.set_arr('D_has', z3.Store(h.arr['D_has'], recv.t, z3.Store(z3.Select(h.arr['D_has'], recv.t), k, z3.BoolVal(False))))
+            st.set_arr('D_size', z3.Store(h.arr['D_size'], recv.t, z3.If(had, h.size(recv.t) - 1, h.size(recv.t))))
             return SV_NONE
         raise Unsupported('set.' + name)
     if recv.kind == 'str':
